@@ -2830,9 +2830,13 @@ class LinearOperator(object):
         squeeze_row = False
         squeeze_col = False
         if isinstance(row_index, int):
+            if row_index < 0:  # slice(-1, 0) would be empty
+                row_index = row_index + self.size(-2)
             row_index = slice(row_index, row_index + 1, None)
             squeeze_row = True
         if isinstance(col_index, int):
+            if col_index < 0:
+                col_index = col_index + self.size(-1)
             col_index = slice(col_index, col_index + 1, None)
             squeeze_col = True
 
